@@ -102,6 +102,25 @@ func revokedAt(w *world.World, id string, created int64) (time.Duration, bool) {
 	return 0, false
 }
 
+// opSlack is the longest time any operation of the run has taken so far (operations still in flight
+// count up to now). With slow calls a cache stamps a key as freshly checked when the call that read
+// it *returns*, which can be that much later than the moment the record was read; every bound that is
+// stated in revoke-check intervals is extended by it. Without slow calls it is zero.
+func opSlack(w *world.World) time.Duration {
+	var m time.Duration
+	now := w.S.Elapsed()
+	for _, op := range w.Ops {
+		end := op.T1
+		if end < op.T0 {
+			end = now
+		}
+		if d := end - op.T0; d > m {
+			m = d
+		}
+	}
+	return m
+}
+
 func cacheKind(c world.PolicyCfg) string {
 	switch {
 	case c.SessionCache && c.SharedIKCache():
@@ -128,7 +147,7 @@ func runC04(t *simrt.Tape, o Opts) Outcome {
 		st.Oracle = map[string]int{}
 		h := &hist{w: w, t: t, parts: world.Partitions[:1+t.Choose(3, "nparts")], maxProc: 2, samePolicyTimes: true}
 		h.gen = world.GenOpts{ShortExpiry: t.Choose(4, "shortexp") != 0, SmallCaps: t.Choose(3, "smallcaps") == 1, AllowTinyLFU: allowTinyLFU}
-		h.weights = [opKinds]int{opEncrypt: 10, opDecrypt: 1, opOpen: 1, opCloseSess: 1, opAdvance: 7, opRevoke: 1, opForeignRotate: 1, opRestart: 1, opNewProc: 1}
+		h.weights = [opKinds]int{opEncrypt: 10, opDecrypt: 1, opOpen: 1, opCloseSess: 1, opAdvance: 7, opRevoke: 1, opForeignRotate: 1, opRestart: 1, opNewProc: 1, opBurst: 1}
 		h.payloadClasses = []int{2}
 		skewed := t.Choose(4, "clock-skew") == 1
 		if skewed {
@@ -147,6 +166,7 @@ func runC04(t *simrt.Tape, o Opts) Outcome {
 			w.Faults.Kinds["ms.readonly-faults"] = true
 		}
 		crossClass := map[string]bool{}
+		switched := newSwitchLog()
 		h.hooks.afterEncrypt = func(se *world.Sess, rec *world.Rec, op *world.OpRec) {
 			if rec == nil {
 				if op.Panic == "" && op.Faulted == 0 {
@@ -159,6 +179,15 @@ func runC04(t *simrt.Tape, o Opts) Outcome {
 			}
 			f := factsFor(w, rec)
 			t0 := unixAt(w, op.T0).Add(op.Skew)
+			// "new keys are created, persisted and used": a cache that has already handed out a record
+			// under a newer intermediate key does not go back to an older one whose parent has expired
+			if !skewed && f.skRow != nil {
+				count(st.Oracle, "no-return-to-replaced-key")
+				if newer, ok := switched.wentBack(scopeOf(se)+"|"+se.Part, rec.IKCreated, op.Idx); ok && t0.After(time.Unix(f.skCreated, 0).Add(pol.Expire)) {
+					w.Violate("returned-to-replaced-ik", "returned-to-IK-under-expired-SK/cache="+cacheKind(se.P.Cfg), "encrypt (op %d) named IK %s@%d, whose parent SK @%d is expired, although an earlier, already completed encrypt on the same cache had switched to the newer IK @%d", op.Idx, rec.IKID, rec.IKCreated, f.skCreated, newer)
+				}
+			}
+			switched.note(scopeOf(se)+"|"+se.Part, rec.IKCreated, len(w.Ops))
 			stampNow := truncUnix(t0, pol.Precision)
 			// clause 1: the named IK is not older than the key lifetime at invocation time
 			count(st.Oracle, "ik-age")
@@ -187,7 +216,7 @@ func runC04(t *simrt.Tape, o Opts) Outcome {
 			if t0.After(ikExpiry.Add(-pol.Expire / 4)) {
 				crossClass["ik-old/"+cacheKind(se.P.Cfg)] = true
 			}
-			if from := maxTime(skExpiry, laterStampFrom(rec.IKCreated, pol.Precision), laterStampFrom(f.skCreated, pol.Precision)); t0.After(from.Add(pol.Revoke)) {
+			if from := maxTime(skExpiry, laterStampFrom(rec.IKCreated, pol.Precision), laterStampFrom(f.skCreated, pol.Precision)); t0.After(from.Add(pol.Revoke + opSlack(w))) {
 				{
 					w.Violate("ik-under-expired-sk", "IK-under-expired-SK-used/cache="+cacheKind(se.P.Cfg), "encrypt invoked at %s named IK %s@%d whose parent SK @%d expired at %s; a replacement could be created from %s on, more than one revoke-check interval (%v) earlier", t0.UTC().Format(time.RFC3339), rec.IKID, rec.IKCreated, f.skCreated, skExpiry.UTC().Format(time.RFC3339), from.UTC().Format(time.RFC3339), pol.Revoke)
 				}
@@ -248,7 +277,7 @@ func runC05(t *simrt.Tape, o Opts) Outcome {
 		st.Oracle = map[string]int{}
 		h := &hist{w: w, t: t, parts: world.Partitions[:1+t.Choose(3, "nparts")], maxProc: 2, samePolicyTimes: true}
 		h.gen = world.GenOpts{SmallCaps: t.Choose(3, "smallcaps") == 1, AllowTinyLFU: allowTinyLFU}
-		h.weights = [opKinds]int{opEncrypt: 10, opDecrypt: 2, opOpen: 1, opCloseSess: 1, opAdvance: 6, opRevoke: 3, opForeignRotate: 1, opRestart: 1, opNewProc: 1}
+		h.weights = [opKinds]int{opEncrypt: 10, opDecrypt: 2, opOpen: 1, opCloseSess: 1, opAdvance: 6, opRevoke: 3, opForeignRotate: 1, opRestart: 1, opNewProc: 1, opBurst: 1}
 		h.payloadClasses = []int{2}
 		skewed := t.Choose(4, "clock-skew") == 1
 		if skewed {
@@ -266,6 +295,7 @@ func runC05(t *simrt.Tape, o Opts) Outcome {
 			w.Faults.Kinds["ms.readonly-faults"] = true
 		}
 		classes := map[string]bool{}
+		switched := newSwitchLog()
 		used := map[string]bool{} // "proc|id@created" keys a process has produced records under
 		h.hooks.afterEncrypt = func(se *world.Sess, rec *world.Rec, op *world.OpRec) {
 			if rec == nil {
@@ -279,6 +309,22 @@ func runC05(t *simrt.Tape, o Opts) Outcome {
 			}
 			f := factsFor(w, rec)
 			t0 := op.T0
+			// "switches to a newly created, persisted key": once a cache has handed out a record under a
+			// newer intermediate key it does not go back to an older one that is revoked (or whose parent is)
+			if !skewed {
+				count(st.Oracle, "no-return-to-replaced-key")
+				if newer, ok := switched.wentBack(scopeOf(se)+"|"+se.Part, rec.IKCreated, op.Idx); ok {
+					_, ikRev := revokedBefore(w, rec.IKID, rec.IKCreated, t0)
+					skRev := false
+					if f.skRow != nil {
+						_, skRev = revokedBefore(w, f.skID, f.skCreated, t0)
+					}
+					if ikRev || skRev {
+						w.Violate("returned-to-replaced-ik", "returned-to-revoked-key/cache="+cacheKind(se.P.Cfg), "encrypt (op %d) named IK %s@%d, which is revoked (IK: %v, parent SK: %v), although an earlier, already completed encrypt on the same cache had switched to the newer IK @%d", op.Idx, rec.IKID, rec.IKCreated, ikRev, skRev, newer)
+					}
+				}
+			}
+			switched.note(scopeOf(se)+"|"+se.Part, rec.IKCreated, len(w.Ops))
 			// intervals are differences of one process's clock readings, so a constant offset cancels;
 			// only "a later creation stamp exists" compares a clock reading with a stamp
 			local := func(d time.Duration) time.Time { return unixAt(w, d).Add(op.Skew) }
@@ -292,7 +338,7 @@ func runC05(t *simrt.Tape, o Opts) Outcome {
 				held := used[fmt.Sprintf("%d|%s@%d", se.P.ID, rec.IKID, rec.IKCreated)]
 				classes[fmt.Sprintf("ik/%s/held=%v", cacheKind(se.P.Cfg), held)] = true
 				from := maxTime(local(T), laterStampFrom(rec.IKCreated, pol.Precision))
-				if local(t0).After(from.Add(pol.Revoke)) {
+				if local(t0).After(from.Add(pol.Revoke + opSlack(w))) {
 					w.Violate("revoked-ik-used", "revoked-IK-used/cache="+cacheKind(se.P.Cfg), "encrypt invoked %v after IK %s@%d was flagged revoked in the metastore (revoke-check interval %v) still produced a record under it; a later stamp %d was available", t0-T, rec.IKID, rec.IKCreated, pol.Revoke, stampNow)
 				} else {
 					count(st.Oracle, "exempt-no-later-stamp")
@@ -303,7 +349,7 @@ func runC05(t *simrt.Tape, o Opts) Outcome {
 				if T, ok := revokedAt(w, f.skID, f.skCreated); ok && t0 > T+2*pol.Revoke {
 					classes[fmt.Sprintf("sk/%s", cacheKind(se.P.Cfg))] = true
 					from := maxTime(local(T), laterStampFrom(rec.IKCreated, pol.Precision), laterStampFrom(f.skCreated, pol.Precision))
-					if local(t0).After(from.Add(2 * pol.Revoke)) {
+					if local(t0).After(from.Add(2*pol.Revoke + 2*opSlack(w))) {
 						w.Violate("ik-under-revoked-sk-used", "IK-under-revoked-SK-used/cache="+cacheKind(se.P.Cfg), "encrypt invoked %v after SK %s@%d was flagged revoked (2 x revoke-check interval = %v) still produced a record under its child IK %s@%d", t0-T, f.skID, f.skCreated, 2*pol.Revoke, rec.IKID, rec.IKCreated)
 					} else {
 						count(st.Oracle, "exempt-no-later-stamp")
@@ -349,4 +395,39 @@ func clockSkewMenu(pol world.PolicyCfg) []time.Duration {
 		}
 	}
 	return m
+}
+
+// switchLog remembers, per cache scope and partition key id, which intermediate key generations
+// completed encrypts have named, and how many operations had begun when each of them completed.
+type switchLog struct {
+	seen map[string][]switchEntry
+}
+
+type switchEntry struct {
+	created  int64
+	opsBegun int
+}
+
+func newSwitchLog() *switchLog { return &switchLog{seen: map[string][]switchEntry{}} }
+
+func (l *switchLog) note(scope string, created int64, opsBegun int) {
+	l.seen[scope] = append(l.seen[scope], switchEntry{created, opsBegun})
+}
+
+// wentBack reports the newest generation that an encrypt completed before operation opIdx began had
+// already named on this scope, if it is newer than created.
+func (l *switchLog) wentBack(scope string, created int64, opIdx int) (int64, bool) {
+	var newest int64
+	for _, e := range l.seen[scope] {
+		if e.opsBegun <= opIdx && e.created > created && e.created > newest {
+			newest = e.created
+		}
+	}
+	return newest, newest != 0
+}
+
+// revokedBefore reports whether the key was flagged revoked in the metastore at or before t.
+func revokedBefore(w *world.World, id string, created int64, t time.Duration) (time.Duration, bool) {
+	T, ok := revokedAt(w, id, created)
+	return T, ok && T <= t
 }
